@@ -20,6 +20,7 @@ is `(trail h v p).Nodup`: no cell is visited twice. On a cyclic heap set-then-ge
 (`C11_set_get_needs_tree`).
 -/
 import Anytype.Lemmas.TreeFormAcyclic
+import Anytype.Lemmas.Slices
 namespace Anytype
 open TFP Heap
 
@@ -323,6 +324,38 @@ theorem C11_unset_no (h : Heap) (v : Val) (p : List Seg) (hne : p ≠ []) (hv : 
 example : ValidPath [.key ['a'], .idx 9] ∧ navigate exT root [.key ['a'], .idx 9] = none ∧
     navigate exT root [.key ['z', 'z']] = none := by decide
 
+
+/-! ## Storage level -/
+
+/-- a tree-form write at a leaf of a list, at storage level: inside the list the slot is overwritten in place; at or behind the
+end the list grows by the gap of `nil`s and the value — whatever was left behind the length by earlier removals never shows,
+for every capacity and growth policy (the padded shape is the one `C11_step_shape_list_pad` gives for the heap model) -/
+theorem C11_slice_leaf_write {α : Type} (cfg : Slices.Cfg α) (sorted : List α → List α) (nilv : α) (σ : Slices.SHeap α)
+    (hw : σ.WF) (c i : Nat) (v : α) (s : Slices.Slice) (hc : σ.cells[c]? = some s) :
+    (Slices.step cfg sorted σ (Slices.leafWrite nilv σ c i v)).1.abs[c]?
+      = some (if i < s.len then (Slices.view σ.mem s).set i v
+              else Slices.view σ.mem s ++ List.replicate (i - s.len) nilv ++ [v]) := by
+  have habs : σ.abs[c]? = some (Slices.view σ.mem s) := by
+    simp [Slices.SHeap.abs, hc]
+  have hlt : c < σ.abs.length := by
+    rcases Nat.lt_or_ge c σ.abs.length with h2 | h2
+    · exact h2
+    · rw [List.getElem?_eq_none h2] at habs; cases habs
+  have hlen : (Slices.view σ.mem s).length = s.len := by
+    have := (hw.1 s (List.mem_of_getElem? hc)).2
+    simp only [Slices.view, Slices.cap] at *
+    rw [List.length_take]; omega
+  have hr : (Slices.step cfg sorted σ (Slices.leafWrite nilv σ c i v)).1.abs
+      = (Slices.astep sorted σ.abs (Slices.leafWrite nilv σ c i v)).1 := by
+    rw [← Slices.step_refines cfg sorted σ hw]
+  rw [hr]
+  simp only [Slices.leafWrite, hc]
+  split
+  · rename_i hi
+    have hi' : i < (Slices.view σ.mem s).length := by omega
+    simp only [Slices.astep, habs, hi', if_true, List.getElem?_set_self hlt]
+  · simp only [Slices.astep, habs, List.getElem?_set_self hlt, List.append_assoc]
+
 end Anytype
 
 #print axioms Anytype.C11_fuel_set
@@ -349,3 +382,4 @@ end Anytype
 #print axioms Anytype.C11_unset_ok_key
 #print axioms Anytype.C11_unset_ok_idx
 #print axioms Anytype.C11_unset_no
+#print axioms Anytype.C11_slice_leaf_write
